@@ -13,14 +13,15 @@ LEVEL = "exploration"
 RULE = ("Hypothesis draws a table of unique cell tokens, an operator (convert with one/several fields, convertall, fieldmap, "
         "rowmap, rowmapmany), a failing set (any subset of (row, field) positions for the cell-level operators, any subset of "
         "rows for rowmap, and for rowmapmany a per-row 'fail after j yielded rows'), the exception type raised (custom, "
-        "KeyError, ValueError, TypeError, AttributeError, ZeroDivisionError, LookupError), the policy False/True/'inline' given as "
+        "KeyError, ValueError, TypeError, AttributeError, ZeroDivisionError, LookupError, IndexError, StopIteration), for the row "
+        "mappers whether the result is a list or a lazy iterable that fails while petl builds the row from it, the policy False/True/'inline' given as "
         "argument or through petl.config.failonerror, and errorvalue. Oracle: a reference model of the three policies (False: "
         "errorvalue in the cell / row dropped, rows a generator produced before failing kept; True: every earlier row "
         "delivered, then exactly that exception when the failing row is requested; 'inline': the exception object in the cell "
         "or as the 1-cell row), which also makes non-failing rows and cells identical under all three policies. Non-trivial = "
         "the failing set is non-empty and not everything. Distinct by digest.")
 ASSUMPTIONS = [
-    "converters raise ordinary Exception subclasses (not StopIteration/GeneratorExit/BaseException)",
+    "converters raise ordinary Exception subclasses incl. StopIteration (not GeneratorExit/BaseException); a StopIteration may surface wrapped (PEP 479)",
     "petl.config.failonerror is read when the view is constructed (as documented) and restored by the harness afterwards",
 ]
 
@@ -30,7 +31,9 @@ class Boom19(Exception):
 
 
 EXC = {"custom": Boom19, "KeyError": KeyError, "ValueError": ValueError, "TypeError": TypeError, "AttributeError": AttributeError,
-       "ZeroDivisionError": ZeroDivisionError, "LookupError": LookupError, "IndexError": IndexError}
+       "ZeroDivisionError": ZeroDivisionError, "LookupError": LookupError, "IndexError": IndexError,
+       # next() on an exhausted iterator inside a converter: an ordinary failure of that cell, never the end of a row or table
+       "StopIteration": StopIteration}
 OPS = ["convert", "convert-multi", "convertall", "fieldmap", "rowmap", "rowmapmany"]
 
 
@@ -41,7 +44,9 @@ def case(draw, tier):
     op = draw(st.sampled_from(OPS))
     c = {"op": op, "nf": nf, "n": n, "policy": draw(st.sampled_from([False, True, "inline"])), "via_config": draw(st.booleans()),
          "exc": draw(st.sampled_from(sorted(EXC))), "errorvalue": draw(st.sampled_from([None, "ERR", 0])),
-         "exc_cells": draw(st.booleans())}
+         "exc_cells": draw(st.booleans()),
+         # rowmap/rowmapmany: the mapper hands back a lazy iterable (generator) that fails while petl builds the row from it
+         "lazy": draw(st.booleans())}
     cells = [(r, f) for r in range(n) for f in range(nf)]
     if op in ("convert", "convert-multi", "convertall", "fieldmap"):
         c["failing"] = [list(x) for x in draw(st.lists(st.sampled_from(cells), unique=True, max_size=len(cells)))] if cells else []
@@ -60,6 +65,18 @@ def _tok(r, f):
 
 def _same_exc(e, cls, token):
     return type(e) is cls and e.args[:1] == (token,)
+
+
+def _surfaced(e, cls, token):
+    """The converter's exception surfaced: itself, or (a StopIteration crossing a generator frame becomes a RuntimeError,
+    PEP 479) as the cause of what was raised."""
+    seen = 0
+    while e is not None and seen < 6:
+        if _same_exc(e, cls, token):
+            return True
+        e = e.__cause__ or e.__context__
+        seen += 1
+    return False
 
 
 def check(case, ctx):
@@ -133,8 +150,19 @@ def check(case, ctx):
             failing = set(case["failing"])
             ctx.nontrivial(0 < len(failing) < n)
 
+            lazy = bool(case.get("lazy")) and cls is not StopIteration
+            if lazy:
+                ctx.label("lazy-mapper-result")
+
             def mapper(rec):
                 r = int(rec[0][1:].split("c")[0])
+                if lazy:
+                    def cells():
+                        for j, v in enumerate(rec):
+                            if r in failing and j == len(rec) - 1:
+                                raise cls(_tok(r, 0))
+                            yield ("ok", v)
+                    return cells()
                 if r in failing:
                     raise cls(_tok(r, 0))
                 return [("ok", v) for v in rec]
@@ -154,13 +182,23 @@ def check(case, ctx):
             plan = case["plan"]
             ctx.nontrivial(any(f for _, f in plan) and not all(f for _, f in plan))
 
+            lazy = bool(case.get("lazy")) and cls is not StopIteration
+            if lazy:
+                ctx.label("lazy-mapper-result")
+
             def genrows(rec):
                 r = int(rec[0][1:].split("c")[0])
                 k, fails = plan[r]
                 for j in range(k):
-                    yield [r, j]
+                    yield (x for x in [r, j]) if lazy else [r, j]
                 if fails:
-                    raise cls(_tok(r, 0))
+                    if lazy:
+                        def bad():
+                            yield r
+                            raise cls(_tok(r, 0))
+                        yield bad()   # a row that fails while it is being built
+                    else:
+                        raise cls(_tok(r, 0))
             view = etl.rowmapmany(tbl, genrows, header=["r", "j"], **kw)
             exp_hdr = ("r", "j")
             exp_rows = []
@@ -197,7 +235,7 @@ def check(case, ctx):
             except StopIteration:
                 return Fail("%s/%s/missing-row" % (op, policy), "output ended after %d rows, expected %r next (case %r)" % (i, (kind, payload), case))
             except Exception as ex:
-                if kind == "raise" and _same_exc(ex, cls, payload):
+                if kind == "raise" and _surfaced(ex, cls, payload):
                     break
                 if kind == "raise":
                     return Fail("%s/%s/wrong-exception" % (op, policy), "raised %r, expected %s(%r)" % (ex, cls.__name__, payload))
@@ -212,7 +250,7 @@ def check(case, ctx):
                     if cell is not cv and cell != cv:
                         return Fail("%s/%s/carried-cell" % (op, policy), "a carried-over cell %r came out as %r (row %d)" % (cv, cell, i))
                 elif ck == "EXC":
-                    if not _same_exc(cell, cls, cv):
+                    if not (isinstance(cell, BaseException) and _surfaced(cell, cls, cv)):
                         return Fail("%s/%s/inline-cell" % (op, policy), "cell %r where %s(%r) was expected (row %d)" % (cell, cls.__name__, cv, i))
                 elif isinstance(cell, BaseException) or cell != cv or type(cell) is not type(cv):
                     return Fail("%s/%s/cell" % (op, policy), "output row %d: cell %r, expected %r (row %r)" % (i, cell, cv, row))
